@@ -63,11 +63,17 @@ func (n Num) IsZero() bool { return n.Class == Finite && n.Coef.Sign() == 0 }
 
 var pow10cache []*big.Int
 
-// Pow10 returns a shared, read-only 10^n (n >= 0). Not safe for concurrent
-// growth; harness processes are single-threaded where it is used.
+const pow10CacheMax = 13000
+
+// Pow10 returns 10^n (n >= 0). Values up to 10^13000 are shared and must be
+// treated as read-only; larger ones are computed on demand. Not safe for
+// concurrent growth; harness processes are single-threaded where it is used.
 func Pow10(n int) *big.Int {
 	if n < 0 || n > 400000 {
 		panic(fmt.Sprintf("harness bug: Pow10(%d)", n))
+	}
+	if n > pow10CacheMax {
+		return new(big.Int).Exp(Ten, big.NewInt(int64(n)), nil)
 	}
 	for len(pow10cache) <= n {
 		if len(pow10cache) == 0 {
@@ -79,7 +85,7 @@ func Pow10(n int) *big.Int {
 	return pow10cache[n]
 }
 
-func init() { Pow10(13000) }
+func init() { Pow10(pow10CacheMax) }
 
 // ---- memory image ---------------------------------------------------------
 
